@@ -184,6 +184,13 @@ theorem intStr_noSpace (i : Int) : NoSpace (intStr i) := by
 
 /-! ### lines -/
 
+theorem readlinesAux_step (cur s : Str) (c : Char) (h1 : c ≠ '\n') (h2 : c ≠ '\r') :
+    readlinesAux cur (c :: s) = readlinesAux (c :: cur) s := by
+  rw [readlinesAux]
+  · intro h; exact h1 h
+  · intro s' h; exact absurd h h2
+  · intro h; exact h2 h
+
 theorem readlinesAux_line (cur l rest : Str) (hl : NoNL l) :
     readlinesAux cur (l ++ '\n' :: rest) = (cur.reverse ++ l ++ ['\n']) :: readlinesAux [] rest := by
   induction l generalizing cur with
@@ -191,9 +198,25 @@ theorem readlinesAux_line (cur l rest : Str) (hl : NoNL l) :
   | cons c l ih =>
     have hc := hl c (by simp)
     have hl' : NoNL l := fun x hx => hl x (by simp [hx])
-    have step : readlinesAux cur (c :: (l ++ '\n' :: rest)) = readlinesAux (c :: cur) (l ++ '\n' :: rest) := by
-      cases hcc : c with
-      | mk v hv => sorry
-    sorry
+    rw [List.cons_append, readlinesAux_step _ _ _ hc.1 hc.2, ih _ hl']
+    simp
+
+/-- a written line is read back as one line -/
+theorem readlines_fmtLine (w : Nat) (key val rest : Str) (hk : NoNL key) (hv : NoNL val) :
+    readlines (fmtLine w key val ++ rest) = fmtLine w key val :: readlines rest := by
+  unfold readlines
+  have e : fmtLine w key val ++ rest = (ljust w key ++ ' ' :: val) ++ '\n' :: rest := by
+    simp [fmtLine]
+  rw [e, readlinesAux_line [] _ _ ?_]
+  · simp [fmtLine]
+  · intro c hc
+    rcases List.mem_append.mp hc with h | h
+    · unfold ljust at h
+      rcases List.mem_append.mp h with h | h
+      · exact hk c h
+      · have := (List.mem_replicate.mp h).2; subst this; exact ⟨by decide, by decide⟩
+    · rcases List.mem_cons.mp h with rfl | h
+      · exact ⟨by decide, by decide⟩
+      · exact hv c h
 
 end HydroVerif.C13
